@@ -481,7 +481,8 @@ Proof.
   intros s o I Hwf. unfold step.
   destruct o as [name typ seed coin label enc pw n temp dfail | name pw n chg dfail | name pw num ea ca dfail
                 | name label dfail | name pw dfail | name pw dfail | name seed pw dfail
-                | name | name pw fok label dfail | name fok label dfail]; cbn [step_gen].
+                | name | name pw fok label dfail | name fok label dfail
+                | name pw | name pw | name]; cbn [step_gen].
   - (* Create *)
     cbn in Hwf. apply andb_prop in Hwf. destruct Hwf as [Hok Hn]. apply Z.leb_le in Hn.
     destruct (create_check typ seed label enc pw temp) eqn:Ecc; [exact I|].
@@ -576,6 +577,9 @@ Proof.
     destruct (negb fok); [exact I|].
     pose proof I as I'. destruct I' as [Um Ud Md U1 U2 F Fm Fd Nm Nd Cm Cd Ok Et].
     commit_case I Ef; cbn; eauto.
+  - (* ViewSecrets *) destruct (find name (mem s)); exact I.
+  - (* GetWalletSeed *) destruct (find name (mem s)) as [w|]; [destruct (negb (w_enc w))|]; exact I.
+  - (* GetWallet / View *) destruct (find name (mem s)); exact I.
 Qed.
 
 Lemma run_inv : forall ops s, forallb wf_op ops = true -> inv s -> inv (run ops s).
@@ -750,6 +754,16 @@ Lemma ex_history_ok :
   map w_c (disk (run ex_history init)) = [0; 0; 3] /\
   mem_eq_disk_b (run ex_history init) = true.
 Proof. vm_compute. repeat split; reflexivity. Qed.
+
+(* read-only calls return data or an error and change nothing *)
+Definition is_read (o : op) : bool :=
+  match o with ViewSecrets _ _ | GetSeed _ _ | ReadW _ => true | _ => false end.
+Lemma read_noop : forall s o, is_read o = true -> fst (step s o) = s.
+Proof.
+  intros s o H. destruct o; try discriminate; unfold step; cbn [step_gen];
+    destruct (find name (mem s)) as [w|]; try reflexivity.
+  destruct (negb (w_enc w)); reflexivity.
+Qed.
 
 (* ------------------------------------------------------------------ for all histories *)
 
